@@ -432,13 +432,31 @@ func RunReplay(path string) int {
 		fmt.Fprintf(os.Stderr, "no replay for check %q\n", v.Check)
 		return 2
 	}
-	r := ck.Replay(v.Case)
 	note := ""
-	if r == nil && v.NShards > 0 && ck.Worker != nil {
-		// The case passes in a fresh process. Re-run the shard the worker met it
-		// in, up to the case: the same generations in the same order.
+	var r *Violation
+	if os.Getenv("VERIF_REPLAY_CONTEXT") != "" {
+		// second stage (a fresh process of its own, so that nothing was generated before the shard starts)
 		r = replayInContext(ck, &v)
 		note = " [reproduced by re-running shard " + fmt.Sprint(v.Shard) + "/" + fmt.Sprint(v.NShards) + " up to the case: it passes in a fresh process, so the failure depends on what the process did before]"
+	} else {
+		r = ck.Replay(v.Case)
+		if r == nil && v.NShards > 0 && ck.Worker != nil {
+			// The case passes in a fresh process. Re-run the shard the worker met it
+			// in, up to the case: the same generations in the same order.
+			self, _ := os.Executable()
+			cmd := exec.Command(self, "replay", path)
+			cmd.Env = append(os.Environ(), "VERIF_REPLAY_CONTEXT=1")
+			cmd.Stderr = os.Stderr
+			out, err := cmd.Output()
+			os.Stdout.Write(out)
+			if err != nil {
+				if ee, ok := err.(*exec.ExitError); ok {
+					return ee.ExitCode()
+				}
+				return 2
+			}
+			return 0
+		}
 	}
 	if r == nil {
 		fmt.Println("replay: case passes")
